@@ -311,7 +311,7 @@ def c14(tier, seed):
 # ----------------------------------------------------------------------------- C18
 
 HX = os.path.join(ROOT, ".cache", "target", "release", "hx")
-DIFF_VARIANT = os.environ.get("VERIF_DIFF_VARIANT", "pinned")
+DIFF_VARIANT = os.environ.get("VERIF_DIFF_VARIANT", "repaired")
 
 
 def apply_json(old_lines, mismatches):
@@ -1155,7 +1155,9 @@ def c16(tier, seed):
                     # for an explicit path only ONE ignore file is consulted (the nearest); when that one does not
                     # exclude the file but a farther one does, the file is formatted (D37)
                     shadowed = explicit_arg and not _stylua_ignored_single(p, ignore_files)
-                    V.append(v("C16", "styluaignored-file-processed" + (":glob-given" if globs else "") + (":explicit-respect" if explicit_arg else "") + (":shadowed-by-nearer-ignore-file" if shadowed else ""), dict(detail, file=p)))
+                    # an explicit path is judged by path_is_stylua_ignored alone (globs play no part there)
+                    sig = "styluaignored-file-processed" + ((":explicit-respect" + (":shadowed-by-nearer-ignore-file" if shadowed else "")) if explicit_arg else (":glob-given" if globs else ""))
+                    V.append(v("C16", sig, dict(detail, file=p)))
                 if not globs and not (name.endswith(".lua") or name.endswith(".luau")):
                     V.append(v("C16", "non-lua-file-processed", dict(detail, file=p)))
             # ---- ring 2 (Model/Ignore.lean): which ignore file answers for an explicit path under --respect-ignores
